@@ -51,19 +51,22 @@ func genCluster(t *rapid.T, allUp bool) cluster {
 	var c cluster
 	c.ProxyDC = rapid.SampledFrom([]int{0, 0, 0, 2}).Draw(t, "proxy_dc")
 	c.Policy = rapid.IntRange(0, 2).Draw(t, "policy")
-	n := rapid.IntRange(1, 6).Draw(t, "n")
-	dcMode := rapid.IntRange(0, 3).Draw(t, "dc_mode") // 0 all local, 1 all remote, 2-3 mixed
-	wMode := rapid.IntRange(0, 4).Draw(t, "w_mode")
+	n := rapid.SampledFrom([]int{1, 2, 2, 3, 3, 3, 4, 4, 5, 6}).Draw(t, "n")
+	dcMode := rapid.IntRange(0, 5).Draw(t, "dc_mode") // 0 all local, 1 all remote, 2-5 mixed
+	wMode := rapid.IntRange(0, 5).Draw(t, "w_mode")
 	mult := rapid.IntRange(2, 4).Draw(t, "mult")
 	for i := 0; i < n; i++ {
 		var s nodeSpec
 		switch wMode {
 		case 0: // equal weights
 			s.W = mult
-		case 1: // multiples of a common factor (gcd > 1)
-			s.W = mult * rapid.IntRange(0, 8/mult).Draw(t, "wk")
+		case 1, 2: // multiples of a common factor (gcd > 1)
+			s.W = mult * rapid.IntRange(1, 8/mult).Draw(t, "wk")
 		default:
-			s.W = rapid.IntRange(0, 8).Draw(t, "w")
+			s.W = rapid.IntRange(1, 8).Draw(t, "w")
+		}
+		if rapid.IntRange(0, 7).Draw(t, "zero") == 0 {
+			s.W = 0
 		}
 		switch dcMode {
 		case 0:
@@ -311,7 +314,7 @@ func checkWindow(c windowCase) (o pbt.Outcome) {
 }
 
 func TestC25Window(t *testing.T) {
-	pbt.Run(t, pbt.Spec{ID: "C25", Sub: "window", Quick: 5000, Thorough: 50000,
+	pbt.Run(t, pbt.Spec{ID: "C25", Sub: "window", Quick: 20000, Thorough: 100000,
 		Rule: "1-6 replicas, all up, weights 0-8 (equal / multiples of a common factor / free), datacenter tags all-local, all-remote or mixed over {proxy's, other, empty}, three policies, counter start 0 / small / last values before 2^32 / uniform; 3W selections, every window of W checked; non-trivial = unequal weights with gcd>1 or mixed datacenters",
 		Floor: 0.4}, genWindow, checkWindow)
 }
@@ -480,7 +483,14 @@ func checkHealth(c healthCase) (o pbt.Outcome) {
 				case cl.Policy == 2 && !cl.local(got):
 					o.Violation = fmt.Sprintf("%s: force-local picked remote replica %d (dc %q, proxy %q)", where, got, dcNames[nd.DC], dcNames[cl.ProxyDC])
 				case cl.Policy == 1 && !cl.local(got) && localCan:
-					o.Violation = fmt.Sprintf("%s: prefer-local picked remote replica %d although a local replica is up", where, got)
+					detail := fmt.Sprintf("%s: prefer-local picked remote replica %d although a local replica is up", where, got)
+					if wrapped {
+						// the local balancer's probes skipped a queue slot at 2^32 and found nothing
+						o.Known, o.KnownWhat = knownWrap, detail
+						label("prefer_local_falls_back_at_wraparound")
+						continue
+					}
+					o.Violation = detail
 				}
 				if o.Violation != "" {
 					return
@@ -499,7 +509,7 @@ func checkHealth(c healthCase) (o pbt.Outcome) {
 }
 
 func TestC25Health(t *testing.T) {
-	pbt.Run(t, pbt.Spec{ID: "C25", Sub: "health", Quick: 5000, Thorough: 50000,
+	pbt.Run(t, pbt.Spec{ID: "C25", Sub: "health", Quick: 20000, Thorough: 100000,
 		Rule: "1-6 replicas with weights 0-8, datacenter tags, random up/down states, three policies; histories of status flips, counter seeks (incl. just before 2^32) and 1-12 selections; every pick judged against the eligible set of the statement; non-trivial = some replica down at a selection, or unequal weights with gcd>1, or mixed datacenters",
 		Floor: 0.6}, genHealth, checkHealth)
 }
@@ -601,7 +611,7 @@ func checkConc(c concCase) (o pbt.Outcome) {
 }
 
 func TestC25Concurrent(t *testing.T) {
-	pbt.Run(t, pbt.Spec{ID: "C25", Sub: "concurrent", Quick: 1500, Thorough: 15000,
+	pbt.Run(t, pbt.Spec{ID: "C25", Sub: "concurrent", Quick: 4000, Thorough: 30000,
 		Rule: "as window, with 2-16 goroutines performing m*W selections in total (m 1-12) through the same DBInfo; the multiset of picks must be exactly m*w_i/gcd; non-trivial = unequal weights with gcd>1 or mixed datacenters",
 		Floor: 0.4}, genConc, checkConc)
 }
